@@ -21,7 +21,7 @@ RULE = (
     "containing CRLF/NUL, any response, any malformed line. Distinct = distinct wire bytes."
 )
 ASSUMPTIONS = [
-    "paths are ASCII and start with exactly one slash; header keys contain no ': ' and no CR/LF; values contain no CR/LF",
+    "paths are ASCII origin-form paths of RFC 3986 pchars (empty segments allowed, so a path may start with '//'); header keys contain no ': ' and no CR/LF; values contain no CR/LF",
     "duplicate header / parameter names follow dict semantics (last one wins)",
     "reasons are single tokens (the statement's quantifier), so 'Not Found' is outside",
 ]
@@ -123,7 +123,7 @@ def check_case(case, ctx):
             f"params:{min(len(m['params']), 3)}", f"headers:{min(len(m['headers']), 3)}",
             "body:crlfcrlf" if b"\r\n\r\n" in m["body"] else "body:other",
             "params:highbytes" if any(max(k + v, default=0) >= 0x80 for k, v in m["params"]) else "params:ascii",
-            "path:semicolon" if b";" in m["path"] else "path:plain"))
+            "path:semicolon" if b";" in m["path"] else "path:plain", "path:empty-segment" if b"//" in m["path"] else "path:no-empty-segment"))
     else:
         ctx.mon("response.model")
         if not isinstance(got, c2.HttpResponse):
@@ -197,6 +197,13 @@ def gen_request(rng):
                 seg += pct(rng.randrange(256), rng)
         segs.append(bytes(seg))
     path = b"/" + b"/".join(segs)
+    r = rng.random()
+    if r < 0.08:
+        path = b"/" + path  # an empty first segment: "//api/v1" is a valid origin-form path, not a network location
+    elif r < 0.12 and segs:
+        path = path + b"//" + segs[0]
+    elif r < 0.15:
+        path = path + b"/"
     params = []
     for _ in range(rng.choice([0, 0, 1, 2, 3, 5])):
         klen = rng.choice([1, 2, 5, 12])
